@@ -114,16 +114,35 @@ NARROW_REVIEWED = {
 
 def r_narrow(ctx):
     rid = "C07.narrow"
-    ctx.rule(rid, "no `as <integer type>` cast inside the literal decoder set of pest_bridge.rs except the reviewed ones (casts wrap or "
-                  "truncate silently; conversions must be try_from)", floor=1)
+    ctx.rule(rid, "no `as <integer type>` cast inside the literal decoder set of pest_bridge.rs except a cast of a digit obtained from "
+                  "char::to_digit (0..=35, decided by provenance) and the reviewed ones (casts wrap or truncate silently; conversions must "
+                  "be try_from)", floor=1)
     f = ctx.facts
+    import c05
+
+    def digit_provenance(fi, cast):
+        """the cast operand is a closure parameter fed by char::to_digit (0..=35): the value fits every integer type"""
+        op = cast["e"]
+        while op["k"] in ("paren", "un", "ref"):
+            op = op["e"]
+        if op["k"] != "path" or "::" in op["p"]:
+            return False
+        for m in vf.walk(fi.node):
+            if m["k"] == "mcall" and m["m"] in ("map", "and_then", "filter_map") and m["a"] and m["a"][0]["k"] == "closure":
+                cl = m["a"][0]
+                if op["p"] in [x for prm in cl["params"] for x in vf.pat_bindings(prm)] and any(x is cast for x in vf.walk(cl["body"])):
+                    return any(x["k"] == "mcall" and x["m"] == "to_digit" for x in vf.walk(m["r"]))
+        return False
+    reviewed = {k.split("|")[0] + "|" + c05._norm_site(k.split("|", 1)[1]): v for k, v in NARROW_REVIEWED.items()}
     for fn in DECODER_SET:
         for fi in f.fn_all(B, fn):
             for n in vf.walk(fi.node):
                 if n["k"] == "cast" and n["ty"] in INT_TYPES:
                     key = "%s|%s" % (fn, vf.src(n)[:60])
-                    ctx.site(rid, key, B, n["l"], {"cast": vf.src(n)[:80]})
-                    if key not in NARROW_REVIEWED:
+                    nkey = "%s|%s" % (fn, c05._norm_site(vf.src(n)[:60]))
+                    by_digit = digit_provenance(fi, n)
+                    ctx.site(rid, key, B, n["l"], {"cast": vf.src(n)[:80], "operand_from_to_digit": by_digit})
+                    if not by_digit and nkey not in reviewed:
                         ctx.violation(rid, key, B, n["l"], "`%s` in %s: a decoded literal is cast with `as`, which wraps instead of rejecting" % (vf.src(n)[:60], fn))
     ctx.site(rid, "decoder-set", B, 1, {"functions": DECODER_SET})
 
